@@ -4,7 +4,6 @@ import (
 	"fmt"
 	"hash/fnv"
 	"net"
-	"sort"
 	"strings"
 
 	"github.com/EdgeCast/vflow/ipfix"
@@ -45,7 +44,7 @@ func cacheKeys(tier string) []ckey {
 		{"X/256", collX, 256},
 		{"Y/256", collY, 256},
 	}
-	if tier == "thorough" {
+	if tier == "thorough-keys" {
 		ks = append(ks, ckey{"X6/256", net.ParseIP("2001:db8::6d2:d75f:4fe8:55c9"), 256}, ckey{"Y6/256", net.ParseIP("2001:db8::6bbd:2345:24c5:cd0b"), 256})
 	}
 	return ks
@@ -62,9 +61,14 @@ func cacheDefs(tier string) []cdef {
 		{"d1[u32]", []ref.Field{{ID: by[ref.TU32], Len: 4, Type: ref.TU32}}},
 		{"d2[u16,u16]", []ref.Field{{ID: by[ref.TU16], Len: 2, Type: ref.TU16}, {ID: by[ref.TU16], Len: 2, Type: ref.TU16}}},
 		{"d3[ipv4]", []ref.Field{{ID: by[ref.TIPv4], Len: 4, Type: ref.TIPv4}}},
+		// same element as d1, different field length (reduced-size encoding: two 2-octet records in the probe)
+		{"d5[u32@2]", []ref.Field{{ID: by[ref.TU32], Len: 2, Type: ref.TU32}}},
 	}
-	if tier == "thorough" {
+	if tier == "thorough-defs" {
 		ds = append(ds, cdef{"d4[u8x4]", []ref.Field{{ID: by[ref.TU8], Len: 1, Type: ref.TU8}, {ID: by[ref.TU8], Len: 1, Type: ref.TU8}, {ID: by[ref.TU8], Len: 1, Type: ref.TU8}, {ID: by[ref.TU8], Len: 1, Type: ref.TU8}}})
+	}
+	if tier == "thorough-keys" {
+		ds = []cdef{ds[0], ds[2], ds[3]}
 	}
 	return ds
 }
@@ -128,14 +132,21 @@ func (e *cacheEnv) apply(c *flowh.Caches, ev cevent) (recs [][]ref.ExpField, unk
 			return nil, true, err.Error()
 		}
 		// render the returned template as the record it would decode from the probe body
-		var rec []ref.ExpField
+		var out [][]ref.ExpField
 		off := 0
-		for _, f := range resp.FieldSpecifiers {
-			at := flowh.TypeOf(f.EnterpriseNo, f.ElementID)
-			rec = append(rec, ref.ExpField{ID: f.ElementID, PEN: f.EnterpriseNo, Value: ref.Interpret(at, probeBody[off:off+int(f.Length)])})
-			off += int(f.Length)
+		for off < len(probeBody) && len(resp.FieldSpecifiers) > 0 {
+			var rec []ref.ExpField
+			for _, f := range resp.FieldSpecifiers {
+				if off+int(f.Length) > len(probeBody) || f.Length == 0 {
+					return out, false, "template does not fit the probe"
+				}
+				at := flowh.TypeOf(f.EnterpriseNo, f.ElementID)
+				rec = append(rec, ref.ExpField{ID: f.ElementID, PEN: f.EnterpriseNo, Value: ref.Interpret(at, probeBody[off:off+int(f.Length)])})
+				off += int(f.Length)
+			}
+			out = append(out, rec)
 		}
-		return [][]ref.ExpField{rec}, false, ""
+		return out, false, ""
 	case "insert": // template fetched from a peer collector
 		t := e.tpl(ev.k, ev.d)
 		if e.v9 {
@@ -156,56 +167,101 @@ func (e *cacheEnv) apply(c *flowh.Caches, ev cevent) (recs [][]ref.ExpField, unk
 }
 
 func (e *cacheEnv) expected(d int) [][]ref.ExpField {
-	var rec []ref.ExpField
+	var out [][]ref.ExpField
 	off := 0
-	for _, f := range e.defs[d].fields {
-		rec = append(rec, ref.ExpField{ID: f.ID, Value: ref.Interpret(f.Type, probeBody[off:off+int(f.Len)])})
-		off += int(f.Len)
+	for off < len(probeBody) {
+		var rec []ref.ExpField
+		for _, f := range e.defs[d].fields {
+			rec = append(rec, ref.ExpField{ID: f.ID, Value: ref.Interpret(f.Type, probeBody[off:off+int(f.Len)])})
+			off += int(f.Len)
+		}
+		out = append(out, rec)
 	}
-	return [][]ref.ExpField{rec}
+	return out
 }
 
+// cacheBFS: the reference model is searched breadth-first on its own (it is a pure function) to
+// enumerate every state and a shortest history reaching it; each state is then one case: its
+// history is replayed on a fresh REAL cache (every event of the replay is checked too), every
+// event of the alphabet is applied from it (fresh cache + replay each time), and every key is
+// probed after every transition. Histories use the four announcing event kinds in rotation, so the
+// same reference state is reached through different code paths across cases.
 func cacheBFS(tier string) mck.Space {
 	flowh.InstallExtra()
-	return mck.FuncSpace{N: 2, F: func(idx uint64, c *mck.Ctx) {
-		env := &cacheEnv{v9: idx == 1, keys: cacheKeys(tier), defs: cacheDefs(tier)}
+	type cfg struct {
+		v9   bool
+		keys []ckey
+		defs []cdef
+	}
+	var cfgs []cfg
+	modes := []string{tier}
+	if tier == "thorough" {
+		modes = []string{"thorough-keys", "thorough-defs"}
+	}
+	for _, m := range modes {
+		for _, v9 := range []bool{false, true} {
+			cfgs = append(cfgs, cfg{v9, cacheKeys(m), cacheDefs(m)})
+		}
+	}
+	type st struct {
+		ref  []int
+		path []cevent
+	}
+	kinds := []string{"ann", "ann+data", "data+ann", "insert"}
+	var states [][]st
+	var cum []uint64
+	total := uint64(0)
+	for _, cf := range cfgs {
+		nk, nd := len(cf.keys), len(cf.defs)
+		start := make([]int, nk)
+		for i := range start {
+			start[i] = -1
+		}
+		seen := map[string]bool{fmt.Sprint(start): true}
+		list := []st{{start, nil}}
+		for i := 0; i < len(list); i++ {
+			cur := list[i]
+			for k := 0; k < nk; k++ {
+				for d := 0; d < nd; d++ {
+					nr := append([]int{}, cur.ref...)
+					nr[k] = d
+					if ks := fmt.Sprint(nr); !seen[ks] {
+						seen[ks] = true
+						kind := kinds[len(list)%len(kinds)]
+						list = append(list, st{nr, append(append([]cevent{}, cur.path...), cevent{kind, k, d})})
+					}
+				}
+			}
+		}
+		states = append(states, list)
+		cum = append(cum, total)
+		total += uint64(len(list))
+	}
+	return mck.FuncSpace{N: total, F: func(idx uint64, c *mck.Ctx) {
+		ci := 0
+		for ci+1 < len(cum) && cum[ci+1] <= idx {
+			ci++
+		}
+		cf := cfgs[ci]
+		state := states[ci][idx-cum[ci]]
+		env := &cacheEnv{v9: cf.v9, keys: cf.keys, defs: cf.defs}
 		proto := "ipfix"
 		if env.v9 {
 			proto = "v9"
 		}
-		// re-verify the committed collision pairs against the implementation: two announcements
-		// from X and Y must leave ONE entry in the exported cache structure iff the keys collide
-		collide := func(a, b int) bool {
-			cc := flowh.NewCaches()
-			env.apply(cc, cevent{"ann", a, 0})
-			n1 := flowh.CacheEntries(cc, env.v9)
-			env.apply(cc, cevent{"ann", b, 1})
-			return flowh.CacheEntries(cc, env.v9) == n1
-		}
-		colliding := map[[2]int]bool{}
-		for a := range env.keys {
-			for b := range env.keys {
-				if a < b && collide(a, b) {
-					colliding[[2]int{a, b}] = true
-				}
-			}
-		}
-		c.Count("colliding_key_pairs_confirmed_on_impl", uint64(len(colliding)))
 		// the alphabet must contain keys that collide under 32-bit FNV-1 of addr||id (the hash the
 		// cache shards by): recomputed here so that the point of the alphabet cannot silently be lost
-		fnvEq := 0
+		colliding := map[int]bool{}
 		for a := range env.keys {
 			for b := range env.keys {
-				if a < b && fnv1(env.keys[a]) == fnv1(env.keys[b]) {
-					fnvEq++
+				if a != b && fnv1(env.keys[a]) == fnv1(env.keys[b]) {
+					colliding[a] = true
 				}
 			}
 		}
-		if fnvEq == 0 {
+		if len(colliding) == 0 {
 			panic("C04 alphabet holds no FNV-colliding exporter/id pair")
 		}
-		c.Count("fnv32_colliding_key_pairs_in_alphabet", uint64(fnvEq))
-		// event alphabet
 		var evs []cevent
 		for k := range env.keys {
 			for d := range env.defs {
@@ -216,21 +272,6 @@ func cacheBFS(tier string) mck.Space {
 				evs = append(evs, cevent{"get", k, 0})
 			}
 		}
-		nk := len(env.keys)
-		type state struct {
-			ref  []int // per key: -1 none, else def index
-			path []cevent
-		}
-		keyOf := func(r []int) string { return fmt.Sprint(r) }
-		start := state{ref: make([]int, nk)}
-		for i := range start.ref {
-			start.ref[i] = -1
-		}
-		seen := map[string]bool{keyOf(start.ref): true}
-		implKeys := map[string]string{} // ref state -> canonical impl cache content (must be a function)
-		frontier := []state{start}
-		depth := 0
-		reported := map[string]bool{}
 		descPath := func(p []cevent) []string {
 			var s []string
 			for _, e := range p {
@@ -238,114 +279,109 @@ func cacheBFS(tier string) mck.Space {
 			}
 			return s
 		}
-		for len(frontier) > 0 {
-			var next []state
-			for _, st := range frontier {
-				for _, ev := range evs {
-					cc := flowh.NewCaches()
-					for _, pe := range st.path {
-						env.apply(cc, pe)
-					}
-					if !env.v9 {
-						ipfix.VerifDrainRPC()
-					}
-					recs, unknown, errs := env.apply(cc, ev)
-					c.Transitions(1)
-					nref := append([]int{}, st.ref...)
-					// reference semantics
-					var wantRecs [][]ref.ExpField
-					wantUnknown := false
-					switch ev.kind {
-					case "ann", "insert":
-						nref[ev.k] = ev.d
-					case "ann+data":
-						nref[ev.k] = ev.d
-						wantRecs = env.expected(ev.d)
-					case "data+ann":
-						if st.ref[ev.k] >= 0 {
-							wantRecs = env.expected(st.ref[ev.k])
-						} else {
-							wantUnknown = true
-						}
-						nref[ev.k] = ev.d
-					case "data", "get":
-						if st.ref[ev.k] >= 0 {
-							wantRecs = env.expected(st.ref[ev.k])
-						} else {
-							wantUnknown = true
-						}
-					}
-					bad := func(where string, k int, msg string) {
-						cls := "other"
-						for p := range colliding {
-							if p[0] == k || p[1] == k {
-								// the failing key has a hash twin; is the twin defined in the reference state?
-								cls = "hash-colliding-keys"
-							}
-						}
-						sig := fmt.Sprintf("%s:cache:%s:%s", proto, where, cls)
-						if reported[sig+keyOf(nref)] {
-							return
-						}
-						reported[sig+keyOf(nref)] = true
-						c.Violation(sig, msg, map[string]interface{}{"history": descPath(st.path), "event": ev.String(env.keys, env.defs), "reference_state_before": st.ref, "keys": keyNames(env.keys), "err": errs})
-					}
-					if ev.kind != "ann" && ev.kind != "insert" {
-						if wantUnknown {
-							if len(recs) != 0 || !unknown {
-								bad("event-"+ev.kind, ev.k, fmt.Sprintf("%s: template not announced by this exporter, yet records=%v unknown=%v", ev.String(env.keys, env.defs), flowh.DescribeRecords(recs), unknown))
-							}
-						} else if cls, m := flowh.CompareRecords(recs, wantRecs); cls != "" {
-							bad("event-"+ev.kind, ev.k, fmt.Sprintf("%s: %s (got %v)", ev.String(env.keys, env.defs), m, flowh.DescribeRecords(recs)))
-						}
-					}
-					// probe every key (reads only)
-					ok := true
-					for k := range env.keys {
-						precs, punk, _ := env.apply(cc, cevent{"data", k, 0})
-						if nref[k] < 0 {
-							if len(precs) != 0 || !punk {
-								bad("probe", k, fmt.Sprintf("after %s: data for %s decoded as %v although that exporter never announced the template", ev.String(env.keys, env.defs), env.keys[k].name, flowh.DescribeRecords(precs)))
-								ok = false
-							}
-						} else if cls, m := flowh.CompareRecords(precs, env.expected(nref[k])); cls != "" {
-							bad("probe", k, fmt.Sprintf("after %s: data for %s: %s (decoded %v, latest own template %s)", ev.String(env.keys, env.defs), env.keys[k].name, m, flowh.DescribeRecords(precs), env.defs[nref[k]].name))
-							ok = false
-						}
-					}
-					if !env.v9 {
-						ipfix.VerifDrainRPC()
-					}
-					ks := keyOf(nref)
-					ik := flowh.CacheKey(cc, env.v9)
-					if prev, have := implKeys[ks]; have && prev != ik && ok {
-						bad("state-not-a-function", ev.k, "two histories with the same reference state left different cache contents")
-					} else if !have {
-						implKeys[ks] = ik
-					}
-					if !seen[ks] {
-						seen[ks] = true
-						next = append(next, state{nref, append(append([]cevent{}, st.path...), ev)})
-					}
+		reported := map[string]bool{}
+		// one transition: apply ev on cc whose reference state is cur; returns the new reference state
+		stepCheck := func(cc *flowh.Caches, cur []int, ev cevent, hist []cevent) []int {
+			if !env.v9 {
+				ipfix.VerifDrainRPC()
+			}
+			recs, unknown, errs := env.apply(cc, ev)
+			c.Transitions(1)
+			nref := append([]int{}, cur...)
+			var wantRecs [][]ref.ExpField
+			wantUnknown := false
+			switch ev.kind {
+			case "ann", "insert":
+				nref[ev.k] = ev.d
+			case "ann+data":
+				nref[ev.k] = ev.d
+				wantRecs = env.expected(ev.d)
+			case "data+ann":
+				if cur[ev.k] >= 0 {
+					wantRecs = env.expected(cur[ev.k])
+				} else {
+					wantUnknown = true
+				}
+				nref[ev.k] = ev.d
+			case "data", "get":
+				if cur[ev.k] >= 0 {
+					wantRecs = env.expected(cur[ev.k])
+				} else {
+					wantUnknown = true
 				}
 			}
-			frontier = next
-			depth++
+			bad := func(where string, k int, msg string) {
+				cls := "other"
+				if colliding[k] {
+					cls = "hash-colliding-keys"
+				}
+				sig := fmt.Sprintf("%s:cache:%s:%s", proto, where, cls)
+				if reported[sig] {
+					return
+				}
+				reported[sig] = true
+				c.Violation(sig, msg, map[string]interface{}{"history": descPath(hist), "event": ev.String(env.keys, env.defs), "reference_state_before": cur, "keys": keyNames(env.keys), "err": errs})
+			}
+			if ev.kind != "ann" && ev.kind != "insert" {
+				if wantUnknown {
+					if len(recs) != 0 || !unknown {
+						bad("event-"+ev.kind, ev.k, fmt.Sprintf("%s: template not announced by this exporter, yet records=%v unknown=%v", ev.String(env.keys, env.defs), flowh.DescribeRecords(recs), unknown))
+					}
+				} else if cls, m := flowh.CompareRecords(recs, wantRecs); cls != "" {
+					bad("event-"+ev.kind, ev.k, fmt.Sprintf("%s: %s (got %v)", ev.String(env.keys, env.defs), m, flowh.DescribeRecords(recs)))
+				}
+			}
+			for k := range env.keys {
+				precs, punk, _ := env.apply(cc, cevent{"data", k, 0})
+				if nref[k] < 0 {
+					if len(precs) != 0 || !punk {
+						bad("probe", k, fmt.Sprintf("after %s: data for %s decoded as %v although that exporter never announced the template", ev.String(env.keys, env.defs), env.keys[k].name, flowh.DescribeRecords(precs)))
+					}
+				} else if cls, m := flowh.CompareRecords(precs, env.expected(nref[k])); cls != "" {
+					bad("probe", k, fmt.Sprintf("after %s: data for %s: %s (decoded %v, latest own template %s)", ev.String(env.keys, env.defs), env.keys[k].name, m, flowh.DescribeRecords(precs), env.defs[nref[k]].name))
+				}
+			}
+			if !env.v9 {
+				ipfix.VerifDrainRPC()
+			}
+			return nref
 		}
-		c.States(uint64(len(seen)))
-		c.Depth(uint64(depth))
-		var sk []string
-		for k := range seen {
-			sk = append(sk, k)
+		build := func(check bool) (*flowh.Caches, []int) {
+			cc := flowh.NewCaches()
+			cur := make([]int, len(env.keys))
+			for i := range cur {
+				cur[i] = -1
+			}
+			for i, pe := range state.path {
+				if check {
+					cur = stepCheck(cc, cur, pe, state.path[:i])
+				} else {
+					env.apply(cc, pe)
+				}
+			}
+			return cc, state.ref
 		}
-		sort.Strings(sk)
-		for _, k := range sk {
-			c.Nontrivial(mck.HashStr(proto, k))
+		// the history itself, every step checked; its cache content is this state's canonical content
+		cc0, _ := build(true)
+		canon := flowh.CacheKey(cc0, env.v9)
+		for _, ev := range evs {
+			cc, cur := build(false)
+			nref := stepCheck(cc, cur, ev, state.path)
+			// a transition that leaves the reference state unchanged must leave the cache content unchanged
+			if fmt.Sprint(nref) == fmt.Sprint(cur) && flowh.CacheKey(cc, env.v9) != canon && !reported["nf"] {
+				reported["nf"] = true
+				c.Violation(proto+":cache:content-not-a-function-of-state", "an event that does not change the reference state changed the cache content", map[string]interface{}{"history": descPath(state.path), "event": ev.String(env.keys, env.defs)})
+			}
 		}
-		c.Sample(func() interface{} {
-			return map[string]interface{}{"protocol": proto, "keys": keyNames(env.keys), "definitions": len(env.defs), "events_per_state": len(evs), "states": len(seen), "bfs_depth": depth,
-				"example_state": sk[len(sk)/2], "colliding_pairs": fmt.Sprint(colliding)}
-		})
+		c.States(1)
+		c.Depth(uint64(len(state.path) + 1))
+		c.Nontrivial(mck.HashStr(proto, fmt.Sprint(len(env.keys), len(env.defs)), fmt.Sprint(state.ref)))
+		c.Outcome(fmt.Sprintf("%s depth=%d", proto, len(state.path)))
+		if idx%4099 == 0 {
+			c.Sample(func() interface{} {
+				return map[string]interface{}{"protocol": proto, "keys": keyNames(env.keys), "definitions": len(env.defs), "events_per_state": len(evs), "reference_state": state.ref, "history": descPath(state.path)}
+			})
+		}
 	}}
 }
 
